@@ -41,7 +41,8 @@ META = {
                "receive side: status/type bytes and values symbolic",
                "Tridonic, LUBA, SCI: two commands of different widths (24 then 16, 16 then 24, ...) through the "
                "same driver object, both packets compared with the wire format; unsupported widths also "
-               "when the command arrives inside a sequence",
+               "when the command arrives inside a sequence or with exceptions off; two gateways of a kind open "
+               "at once on the receive side",
                "LUBA priority: every 16-bit row of the IEC tables (quick: part 102; thorough: all parts) with "
                "symbolic address and parameter, the command object decoded by the real from_frame"],
     "stubs": ["fake os / transport / socket (harness environment)", "struct format interpreter in symbolic mode",
